@@ -248,3 +248,44 @@ Print Assumptions C16_apgm_point.
 Example C16_bb_example :
   bb_update (Fin 1) false (Fin 6) (Fin 2) = (Fin (6 / 2) : xr R).
 Proof. rewrite bb_ratio by lra. destruct (Rlt_dec 0 (6 / 2)); [reflexivity|lra]. Qed.
+
+(** ** Tie to the source.  The left-hand sides (modules SVGen.C16_BB, C16_ABB, C16_LS) are
+    regenerated from scico/optimize/_pgmaux.py by tools/py2coq.py on every run; the right-hand
+    sides are the models the theorems above are about.  A change of the source that changes the
+    computation breaks these obligations. *)
+From SV Require Import C11.Overload C16.GenSig C16.Gen.
+From SVGen Require C16_BB C16_ABB C16_LS.
+
+(** BBStepSize.update: first call / ratio / fall-back / memory update, for every scalar type,
+    vector type, gradient oracle, well-formed memory and argument *)
+Theorem C16_gen_bb_update :
+  forall (K : Type) (NK : Num K) (X : Type) (VX : VecOps (xr K) X) (pgm_f : Func (xr K) X)
+         (pgmL : xr K) (mem : option (X * X)) (v : X),
+    C16_BB.update_gen pgmL pgm_f (C16_BB.mk_st (option_map fst mem) (option_map snd mem)) v
+    = let '(L, m') := bb_step (X * X) (ipxg) (ipgg) pgmL mem (cur pgm_f v) in
+      (L, C16_BB.mk_st (option_map fst m') (option_map snd m')).
+Proof. exact (@bb_update_gen_is_model). Qed.
+Print Assumptions C16_gen_bb_update.
+
+(** AdaptiveBBStepSize.update: both ratios, their fall-backs to the remembered values, the
+    kappa rule, the missing-estimate case and all four memory updates *)
+Theorem C16_gen_abb_update :
+  forall (K : Type) (NK : Num K) (X : Type) (VX : VecOps (xr K) X) (pgm_f : Func (xr K) X)
+         (kappa : K) (pgmL : xr K) (mem : option (X * X)) (m : abb_mem) (v : X),
+    C16_ABB.update_gen pgmL pgm_f
+      (C16_ABB.mk_st kappa (option_map fst mem) (option_map snd mem) (fst m) (snd m)) v
+    = let '(L, (mem', m')) := abb_step (X * X) ipxx ipxg ipgg kappa pgmL mem m (cur pgm_f v) in
+      (L, C16_ABB.mk_st kappa (option_map fst mem') (option_map snd mem') (fst m') (snd m')).
+Proof. exact (@abb_update_gen_is_model). Qed.
+Print Assumptions C16_gen_abb_update.
+
+(** LineSearchStepSize.update: the `while it < self.maxiter` loop (fuel = maxiter) returns the L
+    of [ls_update], with the candidate / f / quadratic model as the code computes them *)
+Theorem C16_gen_ls_update :
+  forall (K : Type) (NK : Num K) (X : Type) (VX : VecOps K X)
+         (pgm_f pgm_g : Func K X) (fquad : X -> X -> K -> K) (pgmL : K) (s : C16_LS.st K) (v : X),
+    C16_LS.update_gen pgmL pgm_f pgm_g fquad s v
+    = fst (fst (ls_update (ls_fz pgm_f pgm_g s v) (ls_fq pgm_f pgm_g fquad s v)
+                          (C16_LS.ls_gamma_u s) (C16_LS.ls_maxiter s) pgmL)).
+Proof. exact (@ls_update_gen_is_model). Qed.
+Print Assumptions C16_gen_ls_update.
